@@ -24,7 +24,8 @@ Qed.
 Section Init.
 Variable E : list edge.
 Variable objs : list N.
-Hypothesis WF : forall e, In e E -> In (e_src e) objs /\ In (e_cod e) objs.
+Hypothesis WFs : forall e, In e E -> In (e_src e) objs.
+Hypothesis WFc : forall e, In e E -> In (e_cod e) objs.
 
 Lemma init_inv :
   exists deg1,
@@ -34,7 +35,7 @@ Lemma init_inv :
     Inv E objs [] deg2 queue [] /\ (length deg2 + length queue <= length objs)%nat.
 Proof.
   destruct (countE_spec E (init_degs objs)) as [deg1 [Hc [Hlen [Hkeys Hget]]]].
-  { intros e He. rewrite mget_init_degs. destruct (WF e He) as [_ Hin]. apply memN_In in Hin.
+  { intros e He. rewrite mget_init_degs. pose proof (WFc e He) as Hin. apply memN_In in Hin.
     rewrite Hin. discriminate. }
   exists deg1. split; [exact Hc|]. intros queue deg2.
   assert (Hget1 : forall x, mget deg1 x = if memN x objs then Some (kin E x) else None).
@@ -98,7 +99,7 @@ Lemma toposortE_exit :
     toposortE E objs = match deg' with [] => Ok out' | _ :: _ => Cycle end.
 Proof.
   destruct init_inv as [deg1 [Hc [HI Hlen]]]. unfold toposortE. rewrite Hc.
-  apply (loopE_inv E objs WF (S (length objs)) []); [exact HI | lia].
+  apply (loopE_inv E objs WFc (S (length objs)) []); [exact HI | lia].
 Qed.
 
 Lemma toposortE_no_panic : (exists l, toposortE E objs = Ok l) \/ toposortE E objs = Cycle.
@@ -165,7 +166,20 @@ Proof.
   - intros [m [Hin Hc]]. exists (m, a, b). split; [apply in_expected; split; assumption|]. split; reflexivity.
 Qed.
 
-Lemma WF_expected : WFin -> forall e, In e expected -> In (e_src e) t_objs /\ In (e_cod e) t_objs.
+(* no codomain is missing from the object set: exactly the condition under which the Rust code
+   does not `unwrap()` a `None` (topo_panic_iff below) *)
+Definition WFcod : Prop := forall o m c, In (o, m) t_dom -> t_gc m = Some c -> In c t_objs.
+
+Lemma WFin_WFcod : WFin -> WFcod.
+Proof. intros HW o m c Hin Hc. destruct (HW o m c Hin Hc) as [_ H]. exact H. Qed.
+
+Lemma WF_expected_s : WFin -> forall e, In e expected -> In (e_src e) t_objs.
+Proof.
+  intros HW [[m o] c] He. apply in_expected in He. destruct He as [Hin Hc]. cbn [e_src e_cod fst snd].
+  destruct (HW o m c Hin Hc) as [H _]. exact H.
+Qed.
+
+Lemma WF_expected_c : WFcod -> forall e, In e expected -> In (e_cod e) t_objs.
 Proof.
   intros HW [[m o] c] He. apply in_expected in He. destruct He as [Hin Hc]. cbn [e_src e_cod fst snd].
   eapply HW; eassumption.
@@ -174,15 +188,19 @@ Qed.
 Lemma toposort_expected : toposort dn dold cn cold oo on = toposortE expected t_objs.
 Proof. apply toposort_E. Qed.
 
+Lemma topo_no_panic_cod :
+  WFcod -> (exists l, toposort dn dold cn cold oo on = Ok l) \/ toposort dn dold cn cold oo on = Cycle.
+Proof. intros HW. rewrite toposort_expected. apply toposortE_no_panic. apply WF_expected_c. exact HW. Qed.
+
 Lemma topo_no_panic :
   WFin -> (exists l, toposort dn dold cn cold oo on = Ok l) \/ toposort dn dold cn cold oo on = Cycle.
-Proof. intros HW. rewrite toposort_expected. apply toposortE_no_panic. apply WF_expected. exact HW. Qed.
+Proof. intros HW. apply topo_no_panic_cod. apply WFin_WFcod. exact HW. Qed.
 
 Lemma topo_complete l :
   WFin -> toposort dn dold cn cold oo on = Ok l -> Permutation expected l.
 Proof.
   intros HW Hr. rewrite toposort_expected in Hr.
-  apply (toposortE_ok expected t_objs (WF_expected HW) l Hr).
+  apply (toposortE_ok expected t_objs (WF_expected_s HW) (WF_expected_c (WFin_WFcod HW)) l Hr).
 Qed.
 
 Lemma topo_complete_in l :
@@ -216,7 +234,7 @@ Lemma topo_order l :
   forall l1 f A B l2 g C D l3, l = l1 ++ (f, A, B) :: l2 ++ (g, C, D) :: l3 -> D <> A.
 Proof.
   intros HW Hr l1 f A B l2 g C D l3 Heq. rewrite toposort_expected in Hr.
-  destruct (toposortE_ok expected t_objs (WF_expected HW) l Hr) as [_ [Hfop _]].
+  destruct (toposortE_ok expected t_objs (WF_expected_s HW) (WF_expected_c (WFin_WFcod HW)) l Hr) as [_ [Hfop _]].
   exact (FOP_before no_back l l1 (f, A, B) l2 (g, C, D) l3 Hfop Heq).
 Qed.
 
@@ -224,7 +242,7 @@ Lemma topo_no_self_loop l :
   WFin -> toposort dn dold cn cold oo on = Ok l -> forall f A B, In (f, A, B) l -> B <> A.
 Proof.
   intros HW Hr f A B Hin. rewrite toposort_expected in Hr.
-  destruct (toposortE_ok expected t_objs (WF_expected HW) l Hr) as [_ [_ [Hns _]]].
+  destruct (toposortE_ok expected t_objs (WF_expected_s HW) (WF_expected_c (WFin_WFcod HW)) l Hr) as [_ [_ [Hns _]]].
   rewrite Forall_forall in Hns. exact (Hns (f, A, B) Hin).
 Qed.
 
@@ -235,7 +253,7 @@ Qed.
 
 Lemma topo_cycle : WFin -> (toposort dn dold cn cold oo on = Cycle <-> has_cycle).
 Proof.
-  intros HW. rewrite toposort_expected, has_cycle_EdgeR. apply toposortE_cycle. apply WF_expected. exact HW.
+  intros HW. rewrite toposort_expected, has_cycle_EdgeR. apply toposortE_cycle; [apply WF_expected_s; exact HW | apply WF_expected_c; apply WFin_WFcod; exact HW].
 Qed.
 
 End Top.
